@@ -14,7 +14,7 @@ RULE = ("Histories (Hypothesis rule-based state machine, replayable as JSON) ove
         "Model: three sticky booleans per object (overflow |= any ROUND(x)>hi, underflow |= any ROUND(x)<lo, inaccuracy |= any stored!=input, plus the source's inaccuracy for Fxp sources), cleared by reset() which must "
         "leave status['extended_prec'] readable; after EVERY step every live object's flags and codes must equal the model; each explicit write must invoke exactly the callbacks of the conditions that occurred plus one "
         "on_value_change; results of arithmetic / functions / Fxp(x) must carry inaccuracy when an operand did. Exhaustive part: every boundary input (hi, lo +- {0,1/4,1/2,3/4,1}) of every format with n_word<=6, all n_frac, "
-        "10 modes, 3 routes. Non-trivial history = a flag-raising write, later a clean write, and a reset; distinct = distinct operation sequences.")
+        "10 modes, 4 routes (call, array set_val, indexed assignment, one complex value carrying the input in both components). Non-trivial history = a flag-raising write, later a clean write, and a reset; distinct = distinct operation sequences.")
 ASSUMPTIONS = ['n_word<=52; inputs exact doubles', 'callback counts are asserted for explicit writes on an existing object only (the constructor performs two internal writes)',
                'propagation through shifts, equal() and numpy functions fxpmath does not implement itself (np.negative, np.abs, np.sin ... fall through to numpy on float values) is not asserted (statement names arithmetic; anchors name function wrappers and Fxp-from-Fxp)']
 EXHAUSTIVE = False    # the whole quantifier is not enumerated; complete sub-domains are listed in EXHAUSTIVE_SUBDOMAINS
@@ -446,6 +446,13 @@ def check_boundary(ctx, case):
             cb.take()
             x(float(v))
             k = C.codes(x)
+        elif route == 'call-complex':
+            # one complex write (the same boundary input in both components): still one write, one notification per condition
+            x = F(0j, s, w, f, rounding=modes[0], overflow=modes[1], callbacks=[cb])
+            cb.take()
+            x(complex(float(v), float(v)))
+            re, im = C.ccodes(x)
+            k = re[0] if re == im else None
         elif route == 'set_val-array':
             x = F(np.zeros(2), s, w, f, rounding=modes[0], overflow=modes[1], callbacks=[cb])
             cb.take()
@@ -474,7 +481,7 @@ def check_boundary(ctx, case):
         ctx.fail('%s/callbacks/%s' % (sig, side), case, {'expected': want, 'got': cbn})
         return
     # sticky: a following clean write leaves the flags raised; reset clears them
-    x(0.0) if route == 'call' else x.set_val(np.zeros(C.shape_of(x)))
+    x(0.0) if route in ('call', 'call-complex') else x.set_val(np.zeros(C.shape_of(x)))
     if C.flags(x) != (eo, eu, ei):
         ctx.fail('%s/not-sticky' % sig, case, {'after_clean_write': list(C.flags(x))})
         return
@@ -594,7 +601,7 @@ def task_boundary(ctx, fmts):
         pts = sorted({4 * b + q for b in (lo, hi) for q in (-4, -3, -2, -1, 0, 1, 2, 3, 4)})
         for modes in C.MODES:
             for x4 in pts:
-                for route in ('call', 'set_val-array', 'setitem'):
+                for route in ('call', 'set_val-array', 'setitem', 'call-complex'):
                     check_boundary(ctx, {'check': 'boundary', 'fmt': list(fmt), 'modes': list(modes), 'x4': x4, 'route': route})
                     ctx.cls('boundary')
                     ctx.nontrivial_enum(1)
